@@ -140,7 +140,7 @@ def gen_cases(tier, rng):
         slots = []
         for i in range(k):
             ulen = rng.choice([1, 2, 3, 5, 22, 23, 24, 30])
-            uri = "".join(rng.choice("abc#/:._") for _ in range(ulen)) + str(i)
+            uri = "".join(rng.choice("abc#/:._%20+") for _ in range(ulen)) + str(i)
             if rng.random() < 0.03 and slots:
                 uri = slots[0][0]  # duplicate
             n = rng.choice([0, 1, 2, rng.randint(0, 3 * eb + 5), rng.randint(0, 70)])
@@ -246,7 +246,8 @@ def cli_cases(res, drv, tier):
     """cache_create from_payloads / merge through the real command line: --eb-size as written, URI,file pairs with commas in neither part"""
     import tempfile
     from concurrent.futures import ThreadPoolExecutor
-    slots = [("#app", payload(40, 1)), ("http://x/y?a=b", payload(17, 2)), ("z", b"")]
+    slots = [("#app", payload(40, 1)), ("http://x/y?a=b", payload(17, 2)), ("z", b""), ("http://example.com/fw%20v1.bin", payload(9, 3)),
+             ("file://a%2Fb.bin", payload(3, 4)), ("file://a/b.bin", payload(4, 5)), ("radio%2Bcore+x.bin", payload(5, 6)), ("100%", payload(6, 7)), ("é%C3%A9", payload(7, 8))]
     cases = [("from_payloads", eb) for eb in (1, 4, 8, 10, 16, 100, 256, 4096)] + [("merge", eb) for eb in (1, 8, 10, 100)] + [("default", None)]
     with tempfile.TemporaryDirectory(prefix="verif_c10cli_") as d:
         inputs = []
@@ -303,15 +304,19 @@ def from_envelope_cases(res, drv, tier, rng):
                 "suit-integrated-payloads": {f"#img{j}_{t}_{u}": payload(5 + u + t, t).hex() for u in range(1 + t % 2)}}}
             if depth == 0 and t % 3 == 0:
                 e["SUIT_Envelope_Tagged"]["suit-integrated-dependencies"] = {f"dep_inner{j}_{t}.suit": leaf(t + 10, 1)}
+                if j % 2 == 1:
+                    del e["SUIT_Envelope_Tagged"]["suit-integrated-payloads"]     # a middle level that integrates nothing but a dependency envelope
             return e
         names = [f"dep_{chr(97 + t)}{j}.suit" for t in range(ndeps)]
         members = {}
-        order = rng.choice(["deps-first", "payload-first", "payload-between"])
+        order = ["deps-first", "payload-first", "deps-only", "payload-between"][j % 4] if j < 8 else rng.choice(["deps-first", "payload-first", "payload-between", "deps-only"])
         desc = {"SUIT_Envelope_Tagged": {"suit-authentication-wrapper": {"SuitDigest": {"suit-digest-algorithm-id": "cose-alg-sha-256"}},
                                          "suit-manifest": {"suit-manifest-version": 1, "suit-manifest-sequence-number": 9}}}
         deps = {nm: leaf(t) for t, nm in enumerate(names)}
         pl = {f"#root{j}": payload(9, j).hex()}
-        if order == "deps-first":
+        if order == "deps-only":
+            desc["SUIT_Envelope_Tagged"]["suit-integrated-dependencies"] = deps       # the root integrates dependency envelopes only
+        elif order == "deps-first":
             desc["SUIT_Envelope_Tagged"]["suit-integrated-dependencies"] = deps
             desc["SUIT_Envelope_Tagged"]["suit-integrated-payloads"] = pl
         else:
